@@ -150,7 +150,7 @@ def run(rep: Report, rng, tier: str, known: dict, search: bool = False) -> None:
 def evidence(rep: Report) -> None:
     write_evidence(
         rep,
-        rule="cases = (expression, variable, point, entry) with entry in {Partial by name, Partial by Variable object, Derivative at Point, Derivative at bare number}; expressions from the rule-directed and random streams (DAG sharing, all n, bases incl. 1 and (0,1)); variable occurring or absent ('w'); non-trivial = in the domain, variable occurs, >= 3 nodes; distinct by (wire, variable, point, entry)",
+        rule="cases = (expression, variable, point, entry) with entry in {Partial by name, Partial by Variable object, Derivative at Point, Derivative at bare number}; expressions from the rule-directed and random streams (DAG sharing, all n, bases incl. 1 and (0,1)); variable occurring or absent ('w'); non-trivial = in the domain, variable occurs, >= 3 nodes; distinct by (wire, variable, point, entry); plus near-special, compensating-magnitude, vanishing-factor and subnormal-power families, renamed variables, fresh name strings",
         trusted=common.TRUSTED,
         assumptions=[common.ASSUME_RANGE],
     )
